@@ -9,7 +9,7 @@ import OpusModel.CeltAlloc
 
   C sources transcribed (pinned tree):
     celt/celt_decoder.c:1252-1278, 1351-1358   allocation call, fine energy, band data, anti-collapse bit, finalise,
-                                               `st->rng = dec->rng`, the `ec_tell(dec) > 8*len` error exit
+                                               `st->rng = dec->rng` (the `ec_tell(dec) > 8*len` test only sets `st->error`)
     celt/rate.c:248-645     clt_compute_allocation — via OpusModel/CeltAlloc.lean (owned by C17, read-only), driven by
                             the real range decoder (`allocDrive`)
     celt/quant_bands.c:492-541   unquant_fine_energy, unquant_energy_finalise (symbol reads only)
@@ -385,8 +385,10 @@ def afterAlloc (cfg : CeltCfg) (len : Nat) (h : CeltHdr) (o : CeltAlloc.Out) (s 
     match (if h.antiCollapseRsv > 0 then (s1.raw 1).2 else s1) with
     | s2 => finalise cfg.C (o.bands.map fun x => (x.ebits, x.prio)) (((len * 8 : Nat) : Int) - tell s2.c) s2
 
-/-- The symbol layer of `celt_decode_with_ec_dred(st, data, len, …, dec, …)` for `len > 1`; `INTERNAL_ERROR` when
-    `ec_tell(dec) > 8*len` at the end (celt_decoder.c:1357). -/
+/-- The symbol layer of `celt_decode_with_ec_dred(st, data, len, …, dec, …)` for `len > 1`.  A frame whose band data
+    overruns its budget (`ec_tell(dec) > 8*len` at the end, celt_decoder.c:1357 — possible by a fraction of a bit, see
+    tools/c03_budget_packets.txt) is decoded like any other; the C code only sets `st->error` (since 59715713; it used to
+    return OPUS_INTERNAL_ERROR). -/
 def celtFrame (cfg : CeltCfg) (len : Nat) (c : Dec) : Res CeltFrame :=
   match celtHeader cfg len c with
   | .ok h =>
@@ -395,7 +397,6 @@ def celtFrame (cfg : CeltCfg) (len : Nat) (c : Dec) : Res CeltFrame :=
       match afterAlloc cfg len h o { s with tr := [] } with
       | s1 =>
         if s1.fault then .abort
-        else if tell s1.c > ((len * 8 : Nat) : Int) then .err .internalError
         else .ok { hdr := h, alloc := o, allocSt := s, fin := s1 }
     | .err e => .err e
     | .oob => .oob
